@@ -97,6 +97,10 @@ async def _scenario(seed: int) -> dict[str, Any]:
                 if mode == "zero":
                     await asyncio.sleep(TICK / 4)  # poll again a little later
                 continue
+            except Exception as exc:  # noqa: BLE001
+                # anything else thrown at the yield point: a peer that goes away must close the generator instead
+                ev(f"thrown:{type(exc).__name__}")
+                raise
             state["seen"] += 1
             state["reqs"] += 1
             want = frames[state["seen"] - 1].decode("ascii", "replace").rstrip("\n") if state["seen"] <= len(frames) else None
@@ -142,7 +146,14 @@ async def _scenario(seed: int) -> dict[str, Any]:
     await harness.settle()
     if rng.random() < 0.5:
         await asyncio.sleep(rng.choice([1, 2]) * TICK)
-    c.close()
+    # the peer goes away: orderly (EOF) or with one of the errors a lost TCP connection produces on the reading side
+    how = rng.choice(["eof", "eof", "reset", "pipe", "aborted"])
+    if how == "eof":
+        c.close()
+    else:
+        import errno
+
+        c.reset({"reset": ConnectionResetError(errno.ECONNRESET, "Connection reset by peer"), "pipe": BrokenPipeError(errno.EPIPE, "Broken pipe"), "aborted": ConnectionAbortedError(errno.ECONNABORTED, "Software caused connection abort")}[how])
     ev("eof")
     await asyncio.sleep(4 * TICK)
     await harness.settle()
@@ -153,7 +164,7 @@ async def _scenario(seed: int) -> dict[str, Any]:
     return {
         "par": {"ends": ends, "kinds": kinds, "tau": tau_half, "zero": mode == "zero"},
         "events": traces.uniform(events, EVD),
-        "meta": f"seed={seed} kinds={kinds} per_gen={per_gen} timeout={mode} on_connection={'generator' if on_conn_gen else 'coroutine'} close_at={close_at} path={'buffered' if buffered else 'copy'}",
+        "meta": f"seed={seed} kinds={kinds} per_gen={per_gen} timeout={mode} on_connection={'generator' if on_conn_gen else 'coroutine'} close_at={close_at} path={'buffered' if buffered else 'copy'} disconnect={how}",
     }
 
 
@@ -190,7 +201,7 @@ def _wrap_gen(factory: Any, ev: Any) -> Any:
 def run(chk: Check) -> None:
     quick = chk.tier == "quick"
     chk.rule = (
-        "connections = seeded scenarios: 1-5 requests (valid / undecodable), chunkings of 1-30 bytes with delays of 0-2 ticks, handler shapes "
+        "connections = seeded scenarios: 1-5 requests (valid / undecodable), chunkings of 1-30 bytes with delays of 0-2 ticks, the peer leaving by EOF / ECONNRESET / EPIPE / ECONNABORTED, handler shapes "
         "(requests per generator 1/2/unlimited, timeout none / 1.37 ticks / zero-timeout polling, on_connection coroutine or generator, client closed at "
         "request c or never), both receive paths, read sizes 1-1024; one trace per connection; distinct = distinct event sequences"
     )
